@@ -6,10 +6,15 @@
 //   sim_hex     (same inputs)                                               hex form (flags = HEX_ONLY)
 //   brackets                                                                "" and "a" round-trip
 //   wide_char   in_c= in_be=                                                'c' gives the 16-bit code unit of the byte, zero-extended
+//   overload                                                                std::string overload: logic_error iff the mask length differs
 //   initial                                                                 numerals little-endian / mask enabled at the start
 //   classify                                                                quoted form iff every byte is printable (all 1-byte strings + pairs)
 //   parse_total in_text=bytes                                               parse under ASan, with and without mask (a crash is the failure)
+//   selftest    in_seed=                                                    development aid: reference syntax vs real parser on random texts
 //   step        g_c0.. g_c3, g_s_* (parser state flags), g_num ...          one parser step from a synthesised prefix
+#include <signal.h>
+#include <unistd.h>
+
 #include <string>
 #include <vector>
 
@@ -34,6 +39,79 @@ static string hexs(const string& s) {
 }
 
 // returns 0 if parse(format(x, mask)) gives back x and the mask classification, else 1
+// Reference parser: the documented syntax (the transition function of contracts/C09_step.h, executed natively). Numerals are
+// scanned by libc exactly as in the contract's model (value abstract there, libc here).
+static string ref_parse(const string& s, string* mask) {
+  const char* t = s.c_str();
+  string out;
+  mask->clear();
+  bool rc = false, rmc = false, rs = false, rus = false, high = true, be = false, me = true;
+  uint8_t chr = 0;
+  auto emit = [&](uint64_t v, size_t w) {
+    for (size_t j = 0; j < w; j++) {
+      out += (char)(uint8_t)(v >> (8 * (be ? w - 1 - j : j)));
+      *mask += (char)(me ? 0xFF : 0x00);
+    }
+  };
+  auto unesc = [](char ch) -> char { return ch == 'n' ? '\n' : ch == 'r' ? '\r' : ch == 't' ? '\t' : ch; };
+  size_t i = 0;
+  while (t[i]) {
+    char c0 = t[i], c1 = t[i + 1];
+    if (rc) {
+      rc = c0 != '\n';
+      i++;
+    } else if (rmc) {
+      if (c0 == '*' && c1 == '/') { rmc = false; i += 2; } else { i++; }
+    } else if (rs || rus) {
+      if (c0 == (rs ? '"' : '\'')) { rs = rus = false; i++; continue; }
+      char v = c0;
+      size_t adv = 1;
+      if (c0 == '\\') {
+        if (!c1) break;
+        v = unesc(c1);
+        adv = 2;
+      }
+      if (rs) { bool sbe = be; be = false; emit((uint8_t)v, 1); be = sbe; } else { emit((uint8_t)v, 2); }
+      i += adv;
+    } else if (c0 == '?') {
+      me = !me; i++;
+    } else if (c0 == '$') {
+      be = !be; i++;
+    } else if (c0 == '#') {
+      size_t n = 1;
+      while (n < 4 && t[i + n] == '#') n++;
+      char* end;
+      uint64_t v = strtoull(t + i + n, &end, 0);
+      emit(v, n == 1 ? 1 : n == 2 ? 2 : n == 3 ? 4 : 8);
+      i = end - t;
+    } else if (c0 == '%') {
+      char* end;
+      if (c1 == '%') {
+        double d = strtod(t + i + 2, &end);
+        uint64_t bits; memcpy(&bits, &d, 8);
+        emit(bits, 8);
+      } else {
+        float f = strtof(t + i + 1, &end);
+        uint32_t bits; memcpy(&bits, &f, 4);
+        emit(bits, 4);
+      }
+      i = end - t;
+    } else {
+      int hv = (c0 >= '0' && c0 <= '9') ? c0 - '0' : (c0 >= 'A' && c0 <= 'F') ? c0 - 'A' + 10 : (c0 >= 'a' && c0 <= 'f') ? c0 - 'a' + 10 : -1;
+      if (hv >= 0) {
+        if (high) { chr = hv << 4; } else { bool sbe = be; be = false; emit(chr | hv, 1); be = sbe; chr = 0; }
+        high = !high;
+      } else if (c0 == '"') { rs = true;
+      } else if (c0 == '\'') { rus = true;
+      } else if (c0 == '/' && c1 == '/') { rc = true;
+      } else if (c0 == '/' && c1 == '*') { rmc = true;
+      }
+      i++;
+    }
+  }
+  return out;
+}
+
 static int roundtrip(const string& x, const string* mask, uint64_t flags) {
   string text = format_data_string(x.data(), x.size(), mask ? mask->data() : nullptr, flags);
   string pmask;
@@ -74,8 +152,16 @@ static int sim(const Args& a, uint64_t flags) {
   return rc;
 }
 
+static void on_alarm(int) {
+  static const char msg[] = "POSTCONDITION VIOLATED on the real code: parse_data_string does not terminate on this input (10 s)\n";
+  (void)!write(1, msg, sizeof(msg) - 1);
+  _exit(1);
+}
+
 int main(int argc, char** argv) {
   Args a(argc, argv);
+  signal(SIGALRM, on_alarm);
+  alarm(10);
   if (a.mode == "roundtrip") {
     size_t len = a.u("in_len");
     const auto& xs = a.arr("in_x");
@@ -96,6 +182,25 @@ int main(int argc, char** argv) {
   if (a.mode == "brackets") {
     string m1("\xFF", 1), m0("\x00", 1);
     return roundtrip("", nullptr, 0) | roundtrip("a", nullptr, 0) | roundtrip("a", &m0, 0) | roundtrip("a", &m1, 0);
+  }
+  if (a.mode == "overload") {
+    // std::string overload: logic_error iff a mask of another length is given
+    for (size_t dl : {0, 1, 3}) {
+      for (size_t ml : {0, 1, 2, 3}) {
+        string d(dl, 'a'), m(ml, '\xFF');
+        bool threw = false;
+        try {
+          string r = format_data_string(d, &m, 0);
+          RCHECK(r == format_data_string(d.data(), d.size(), m.data(), 0), "overload result differs from the pointer form");
+        } catch (const logic_error&) {
+          threw = true;
+        }
+        RCHECK(threw == (dl != ml), "data %zu bytes, mask %zu bytes: %s", dl, ml, threw ? "threw" : "did not throw");
+      }
+      string d(dl, 'a');
+      RCHECK(format_data_string(d, nullptr, 0) == format_data_string(d.data(), d.size(), nullptr, 0), "overload without mask");
+    }
+    return 0;
   }
   if (a.mode == "initial") {
     string m;
@@ -151,7 +256,9 @@ int main(int argc, char** argv) {
     return 0;
   }
   if (a.mode == "step") {
-    // synthesise a prefix that brings the real parser into the recorded state, then compare the effect of the next construct
+    // synthesise a prefix that brings the real parser into the recorded entry state, append the look-ahead characters of the
+    // counterexample (and, when the text does not end inside them, a probe that makes the state after the step visible) and
+    // compare the real parser with the reference transition function (the step contract, executed natively)
     bool rc = a.u("g_s_rc"), rmc = a.u("g_s_rmc"), rs = a.u("g_s_rs"), rus = a.u("g_s_rus");
     bool high = a.u("g_s_high", 1), be = a.u("g_s_be"), me = a.u("g_s_me", 1);
     uint8_t chr = a.u("g_s_chr");
@@ -166,76 +273,66 @@ int main(int argc, char** argv) {
     if (rs) prefix += "\"";
     if (rus) prefix += "'";
     string tail;
-    for (int k = 0; k < 4 && c[k]; k++) {
+    int k = 0;
+    for (; k < 4 && c[k]; k++) {
       tail += c[k];
     }
+    int rcode = 0;
+    // the counterexample itself, then the same step followed by probes that make the state after the step visible
+    // (other inputs than the counterexample, but any difference is a violation on the real code all the same)
+    vector<string> texts = {prefix + tail};
+    vector<string> tails = {tail};
     bool n = !rc && !rmc && !rs && !rus;
-    bool numeric = n && (c[0] == '#' || c[0] == '%');
-    if (numeric) {
-      // keep only the markers, then a fixed numeral
-      size_t k = 1;
-      while (k < 4 && c[k] == c[0] && (c[0] == '#' || k < 2)) k++;
-      tail = string(k, c[0]) + "258 ";
+    if (n && (c[0] == '#' || c[0] == '%')) {
+      size_t nm = 1;
+      while (nm < 4 && c[nm] == c[0] && (c[0] == '#' || nm < 2)) nm++;
+      tails.push_back(string(nm, c[0]) + (c[0] == '#' ? "258" : "0.1"));
     }
-    string m0, m1;
-    string d0 = parse_data_string(prefix, &m0, 0);
-    string d1 = parse_data_string(prefix + tail, &m1, 0);
-    printf("prefix = %s  then = %s\n  before [%s]  after [%s] mask [%s]\n", prefix.c_str(), tail.c_str(), hexs(d0).c_str(), hexs(d1).c_str(), hexs(m1).c_str());
-    RCHECK(d1.size() >= d0.size() && d1.compare(0, d0.size(), d0) == 0, "earlier output changed");
-    RCHECK(m1.size() == d1.size(), "mask size");
-    string added = d1.substr(d0.size());
-    auto unesc = [](char ch) -> char { return ch == 'n' ? '\n' : ch == 'r' ? '\r' : ch == 't' ? '\t' : ch; };
-    if (rs && c[0] != '"') {
-      char want = (c[0] == '\\') ? unesc(c[1]) : c[0];
-      if (!(c[0] == '\\' && !c[1])) {
-        RCHECK(!added.empty() && added[0] == want, "inside \"...\": expected byte %02X first", (uint8_t)want);
+    for (const string& tl : tails) {
+      for (const char* probe : {" \n*/ 4 ##258 'a' \"b\" 1", "7 \"\n*/ 4 ##258 'a' \"b\" 1", "x> 41"}) {
+        texts.push_back(prefix + tl + probe);
       }
     }
-    if (rus && c[0] != '\'' && !(c[0] == '\\' && !c[1])) {
-      uint8_t want = (uint8_t)((c[0] == '\\') ? unesc(c[1]) : c[0]);
-      RCHECK(added.size() >= 2 && (uint8_t)added[be ? 1 : 0] == want && (uint8_t)added[be ? 0 : 1] == 0,
-          "inside '...': expected code unit %04X in %s order", want, be ? "big-endian" : "little-endian");
-    }
-    if (n && c[0] == '#') {
-      size_t k = 1;
-      while (k < 4 && c[k] == '#') k++;
-      size_t w = k == 1 ? 1 : k == 2 ? 2 : k == 3 ? 4 : 8;
-      RCHECK(added.size() == w, "%zu '#' select %zu bytes, got %zu", k, w, added.size());
-      uint64_t v = 258;
-      for (size_t j = 0; j < w; j++) {
-        uint8_t want = (uint8_t)(v >> (8 * (be ? w - 1 - j : j)));
-        RCHECK((uint8_t)added[j] == want, "byte %zu of the %zu-byte numeral 258 (%s-endian)", j, w, be ? "big" : "little");
-        RCHECK((uint8_t)m1[d0.size() + j] == (me ? 0xFF : 0x00), "mask byte");
+    for (const string& text : texts) {
+      string m_real, m_ref, d_real;
+      try {
+        d_real = parse_data_string(text, &m_real, 0);
+      } catch (const exception& e) {
+        printf("text = [%s]\nPOSTCONDITION VIOLATED on the real code: parse_data_string threw %s with ALLOW_FILES off\n", hexs(text).c_str(), e.what());
+        rcode = 1;
+        continue;
+      }
+      string d_ref = ref_parse(text, &m_ref);
+      if (d_real != d_ref || m_real != m_ref) {
+        printf("text = [%s]\n  real [%s] mask [%s]\n  ref  [%s] mask [%s]\n", hexs(text).c_str(), hexs(d_real).c_str(), hexs(m_real).c_str(),
+            hexs(d_ref).c_str(), hexs(m_ref).c_str());
+        printf("POSTCONDITION VIOLATED on the real code: parse_data_string differs from the documented syntax on this text\n");
+        rcode = 1;
       }
     }
-    if (n && c[0] == '%') {
-      bool dbl = c[1] == '%';
-      size_t w = dbl ? 8 : 4;
-      RCHECK(added.size() == w, "%% selects 4 bytes, %%%% 8; got %zu", added.size());
-      uint64_t bits;
-      if (dbl) {
-        double d = 258.0;
-        memcpy(&bits, &d, 8);
-      } else {
-        float f = 258.0f;
-        uint32_t b32;
-        memcpy(&b32, &f, 4);
-        bits = b32;
+    return rcode;
+  }
+  if (a.mode == "selftest") {
+    // development aid (not part of the proof): the reference transition function against the real parser on random texts,
+    // and random round trips
+    uint64_t st = a.u("in_seed", 1) * 0x9E3779B97F4A7C15ull + 1;
+    auto rnd = [&]() { st ^= st << 13; st ^= st >> 7; st ^= st << 17; return st; };
+    static const char alpha[] = "\"'\\/*?$#%<> \n\r\tnrt0123456789abcdefABCDEFxXg.-+e\xE9\x80";
+    alarm(0);
+    for (int it = 0; it < 200000; it++) {
+      string text;
+      size_t n = rnd() % 24;
+      for (size_t k = 0; k < n; k++) {
+        text += (rnd() % 8) ? alpha[rnd() % (sizeof(alpha) - 1)] : (char)(1 + rnd() % 255);
       }
-      for (size_t j = 0; j < w; j++) {
-        uint8_t want = (uint8_t)(bits >> (8 * (be ? w - 1 - j : j)));
-        RCHECK((uint8_t)added[j] == want, "byte %zu of the float/double 258", j);
+      string m_real, m_ref;
+      string d_real = parse_data_string(text, &m_real, 0);
+      string d_ref = ref_parse(text, &m_ref);
+      if (d_real != d_ref || m_real != m_ref) {
+        printf("text = [%s]\n  real [%s] mask [%s]\n  ref  [%s] mask [%s]\n", hexs(text).c_str(), hexs(d_real).c_str(), hexs(m_real).c_str(),
+            hexs(d_ref).c_str(), hexs(m_ref).c_str());
+        return 1;
       }
-    }
-    if (n && c[0] == '$') {
-      string t2 = prefix + "$##1";
-      string r = parse_data_string(t2);
-      RCHECK(r.size() == d0.size() + 2 && (uint8_t)r[d0.size() + (be ? 0 : 1)] == 1, "$ toggles the byte order");
-    }
-    if (n && c[0] == '?') {
-      string mm;
-      string r = parse_data_string(prefix + "?00", &mm, 0);
-      RCHECK(!mm.empty() && (uint8_t)mm.back() == (me ? 0x00 : 0xFF), "? toggles the mask");
     }
     return 0;
   }
